@@ -79,7 +79,8 @@ func (s *State) evalIndexAssigment(which ast.Node, index, value object.Object) o
 		if idx < 0 || idx >= int64(object.Len(val)) {
 			return s.NewError("index assignment out of bounds: " + index.Inspect())
 		}
-		elements := object.Elements(val)
+		// Arrays are values: copy, don't write into storage that other bindings may share.
+		elements := append([]object.Object(nil), object.Elements(val)...)
 		elements[idx] = value
 		oerr := s.env.Set(id.Literal(), object.NewArray(elements))
 		if oerr.Type() == object.ERROR {
@@ -87,7 +88,7 @@ func (s *State) evalIndexAssigment(which ast.Node, index, value object.Object) o
 		}
 		return value
 	case object.MAP:
-		m := val.(object.Map)
+		m := object.CopyMap(val.(object.Map)) // maps are values too.
 		m = m.Set(index, value)
 		oerr := s.env.Set(id.Literal(), m)
 		if oerr.Type() == object.ERROR {
@@ -473,7 +474,10 @@ func (s *State) deleteMapEntry(idxE *ast.IndexExpression, index object.Object) o
 	}
 	log.LogVf("remove map: %s from %s", index.Inspect(), id)
 	m := obj.(object.Map)
-	m, changed := m.Delete(index)
+	if _, found := m.Get(index); !found {
+		return object.FALSE
+	}
+	m, changed := object.CopyMap(m).Delete(index) // don't change the storage other bindings may share.
 	if !changed {
 		return object.FALSE
 	}
@@ -1275,6 +1279,8 @@ func (s *State) evalArrayInfixExpression(operator token.Type, left, right object
 		}
 		return object.NewArray(result)
 	case token.PLUS: // concat / append
+		// Full slice expression: never append into spare capacity another array may also be using.
+		leftVal = leftVal[:len(leftVal):len(leftVal)]
 		if right.Type() != object.ARRAY {
 			return object.NewArray(append(leftVal, object.Value(right)))
 		}
